@@ -160,7 +160,10 @@ class Unit:
             csrc, ctxt, cs, ce, ckind = self._cut(cm)
             rw2 = X.Rewriter(scalars=sp.lst('scalars') or ['Index', 'IT_', 'DT_'], extra_rules=extra, drop=drop,
                              members=sp.lst('members'), enums=sp.lst('enums'))
-            self.also.append(rw2.run(ctxt, cname=cm.get('cname')))
+            htxt = rw2.run(ctxt, cname=cm.get('cname'))
+            if cm.get('ret') and cm.get('cname'):      # constructors have no return type of their own
+                htxt = re.sub(r'^(\s*)' + re.escape(cm['cname']) + r'\s*\(', lambda mm: mm.group(1) + cm['ret'] + ' ' + cm['cname'] + '(', htxt, count=1)
+            self.also.append(htxt)
             for k, v in rw2.hits.items():
                 rw.hits[k] = rw.hits.get(k, 0) + v
             self.info.setdefault('also_cut', []).append({'name': c['name'], 'file': cm['file'], 'lines': [X.lineno(csrc, cs), X.lineno(csrc, ce)], 'sha': X.sha(ctxt)})
